@@ -112,6 +112,9 @@ def vectors(ctx, streams):
                 b.append(gen.rand_frame_df(rng, df))
             batches.append(b)
         V.append({"fn": "net.run", "batches": batches})
+        if len(V) % 3 == 0:
+            # the RTL-SDR source carries its own copy of the forwarding rule (outside C16's statement: drift only)
+            V.append({"fn": "net.run", "batches": batches, "src": "rtl"})
     return V
 
 
@@ -129,9 +132,9 @@ def to_trace(ev):
         else:
             msgs = [m for b in e["batches"] for m in b]
             if r["t"] != "net":
-                lines.append({"ev": "net", "run": e["id"], "msgs": msgs, "adsb": [[0]], "commb": []})
+                lines.append({"ev": "net", "run": e["id"], "msgs": msgs, "adsb": [[0]], "commb": [], "src": e.get("src", "net")})
             else:
-                lines.append({"ev": "net", "run": e["id"], "msgs": msgs, "adsb": r["adsb"], "commb": r["commb"]})
+                lines.append({"ev": "net", "run": e["id"], "msgs": msgs, "adsb": r["adsb"], "commb": r["commb"], "src": e.get("src", "net")})
     return lines
 
 
@@ -309,8 +312,13 @@ def run(ctx):
     smp = dict(ev[len(ev) // 2])
     ctx.samples.append({"kind": smp.get("kind"), "cuts": smp.get("cuts"), "frs": smp.get("frs"), "res": smp["res"]})
     for e, why in validate_runs(ctx, ev):
+        if why.startswith("drift:"):
+            ctx.drift += 1
+            ctx.drift_kinds = getattr(ctx, "drift_kinds", {})
+            ctx.drift_kinds[why] = ctx.drift_kinds.get(why, 0) + 1
+            continue
         small = {"fn": e["fn"], "id": e["id"], "kind": e.get("kind"), "frs": e.get("frs"), "cuts": e.get("cuts"),
-                 "batches": e.get("batches"), "res": e["res"]}
+                 "batches": e.get("batches"), "src": e.get("src", "net"), "res": e["res"]}
         ctx.violation(why, small)
 
 
@@ -325,7 +333,7 @@ def replay(ctx, path):
         elif e["fn"] == "link.run":
             continue
         else:
-            V.append({"fn": "net.run", "batches": e["batches"]})
+            V.append({"fn": "net.run", "batches": e["batches"], "src": e.get("src", "net")})
     L = [{"fn": "link.run", "kind": c["event"]["kind"], "frs": c["event"]["frs"], "cuts": c["event"]["cuts"], "times": c["event"]["times"],
           "rx": c["event"]["rx"]} for c in cases if c["event"]["fn"] == "link.run"]
     if L:
@@ -336,5 +344,7 @@ def replay(ctx, path):
                                     "times": e["times"], "rx": e["rx"], "res": e["res"]})
     ev = ctx.replay(V)
     for e, why in validate_runs(ctx, ev):
+        if why.startswith("drift:"):
+            continue
         ctx.violation(why, {"fn": e["fn"], "id": e["id"], "kind": e.get("kind"), "frs": e.get("frs"), "cuts": e.get("cuts"),
-                            "batches": e.get("batches"), "res": e["res"]})
+                            "batches": e.get("batches"), "src": e.get("src", "net"), "res": e["res"]})
